@@ -275,6 +275,15 @@ def check(chk):
                                    src(kwarg(v, "ms")) == ev + ".ms" for v in val)
             chk.ob("DOM-9", "the armed record carries this handler's callback, state and hold time", ok, f.where(c),
                    construct=f.ident, text="timed record fields")
+    # sufficiency: *every* live handler is served -- nothing but `cancelled` exempts an entry, nothing but `ms` decides call / arm
+    from sa.helpers import exact_selection
+    for n, c in uses:
+        if call_attr(c) == "callback":
+            exact_selection(chk, "DOM-9", "every live untimed handler of the new state is called (no further condition)", f, cfg, n, head,
+                            {("%s.cancelled" % ev, False), ("%s.ms" % ev, False)}, text="untimed call exactly")
+        else:
+            exact_selection(chk, "DOM-9", "every live timed handler of the new state is armed (no further condition)", f, cfg, n, head,
+                            {("%s.cancelled" % ev, False), ("%s.ms" % ev, True)}, text="timed arm exactly")
     f = repo.func(SC, K + "._process_active_timed_switches")
     chk.analysed(f)
     cfg = f.cfg()
@@ -294,8 +303,17 @@ def check(chk):
                  [k for k, v in g.items() if " in self._active_timed_switches" in k and " not in " not in k and v is True]
         chk.ob("DOM-9", "an entry removed by an earlier callback is not fired", bool(member), f.where(c), construct=f.ident,
                text="membership re-check")
+    outer = [h for h in loops if isinstance(h.ast.target, ast.Name) and h.ast.target.id == "k"]
+    for n, c in cbs:
+        if outer:
+            got = exact_selection(chk, "DOM-9", "every due timed handler that is still registered fires (no further condition)", f, cfg, n, outer[0],
+                                  {("k <= current_time", True), ("entry not in self._active_timed_switches[switch][k]", False)}, text="due handler fires exactly")
     dels = [n for n in cfg.nodes_where(lambda n: n.kind == "stmt" and isinstance(n.ast, ast.Delete) and
                                        src(n.ast.targets[0]).replace(" ", "") == "self._active_timed_switches[switch][k]")]
+    for n in dels:
+        if outer:
+            exact_selection(chk, "DOM-9", "every fired deadline is forgotten (exactly the due ones)", f, cfg, n, outer[0], {("k <= current_time", True)},
+                            text="fired deadline deleted exactly")
     ok = bool(dels) and all(any(k.replace(" ", "") in ("k<=current_time",) and v is True for k, v in cfg.guards_at(n.id).items()) for n in dels)
     chk.ob("DOM-9", "fired deadlines are deleted (fire once), pending ones are kept", ok, f.where(), construct=f.ident,
            text="delete fired key")
@@ -320,6 +338,16 @@ def check(chk):
     mins = [x for x in walk_local(f.node) if isinstance(x, ast.Compare) and "next_event_time" in src(x.left) and src(x.comparators[0]) == "k"]
     ok = any(isinstance(x.ops[0], ast.Gt) for x in mins)
     chk.ob("PAIR-4", "the earliest remaining deadline is selected", ok, f.where(), construct=f.ident, text="min selection")
+    from sa.helpers import running_min_ifs
+    ex, inex = running_min_ifs(f.node, "next_event_time", "k")
+    chk.ob("PAIR-4", "the next wake-up is the running minimum of the pending deadlines (`if not m or m > k: m = k`, nothing more, nothing less)",
+           len(ex) == 1 and not inex, f.where(), detail="%d exact, %d other updates of next_event_time" % (len(ex), len(inex)), construct=f.ident,
+           text="running minimum of deadlines")
+    if ex and outer:
+        nn = [x for x in cfg.nodes if x.kind == "stmt" and x.ast in ex[0].body]
+        if nn:
+            exact_selection(chk, "PAIR-4", "every pending (not yet due) deadline takes part in the minimum", f, cfg, nn[0], outer[0],
+                            {("k <= current_time", False)}, text="pending deadlines in minimum")
     chk.floor("SNAP-2", 3)
     chk.floor("DOM-9", 7)
 
@@ -381,6 +409,11 @@ def check(chk):
             any(k.replace(" ", "") in ("entry.callback==callback", "callback==entry.callback") and v is True for k, v in g.items())
         chk.ob("PAIR-3", "remove matches on (callback, ms) exactly", ok, f.where(c), detail="guards %s" % sorted(g.items()),
                construct=f.ident, text="remove match")
+        rl_ = [h for h in cfg.nodes if h.kind == "loop" and any(y is c for y in ast.walk(h.ast))]
+        if rl_:
+            from sa.helpers import exact_selection
+            exact_selection(chk, "PAIR-3", "every registration matching (callback, ms) is removed - nothing else takes part in the match", f, cfg, n, rl_[-1],
+                            {("entry.ms == ms", True), ("entry.callback == callback", True)}, text="remove match exactly")
         canc = [s_ for s_ in cfg.nodes_where(lambda s_: s_.kind == "stmt" and isinstance(s_.ast, ast.Assign) and
                                              src(s_.ast.targets[0]) == "entry.cancelled" and src(s_.ast.value) == "True")]
         ok = bool(canc) and all(cfg.guards_at(s_.id) == g for s_ in canc)
